@@ -1,7 +1,7 @@
 """Which contract serves which property, and the trusted base per property."""
 import importlib
 
-MODULES = ['contracts.c_nodes_simple', 'contracts.c_nodes_buffered', 'contracts.c_nodes_keyed', 'contracts.c_emit', 'contracts.c_async', 'contracts.c_nodes_combine', 'contracts.c_kafka', 'contracts.c_loop', 'contracts.c_textfile', 'contracts.c_sources', 'contracts.c_topology', 'contracts.c_dask', 'contracts.c_df_reductions', 'contracts.c_df_windows']
+MODULES = ['contracts.c_nodes_simple', 'contracts.c_nodes_buffered', 'contracts.c_nodes_keyed', 'contracts.c_emit', 'contracts.c_async', 'contracts.c_nodes_combine', 'contracts.c_kafka', 'contracts.c_loop', 'contracts.c_textfile', 'contracts.c_sources', 'contracts.c_topology', 'contracts.c_dask', 'contracts.c_df_reductions', 'contracts.c_df_windows', 'contracts.c_df_rolling']
 
 CONTRACTS = []      # (module, class name, props)
 for m in MODULES:
@@ -22,3 +22,32 @@ COMMON_ASSUMPTIONS = [
 TRUSTED_BASE = {}
 ASSUMPTIONS = {}
 EXTRA_CHECKS = {}
+
+
+def _bounded_df(pid):
+    """BOUNDED stand-in next to the proofs of the dataframe properties: the real accumulators with real pandas over an
+    enumerated space (bounded/df_enum.py).  Reported under coverage.bounded, never counted in obligations/discharged;
+    a mismatch is a violation with the concrete failing input."""
+    def run(tier, seed):
+        import json, os, subprocess
+        here = os.path.dirname(os.path.dirname(os.path.abspath(__file__)))
+        repo = os.environ.get('VERIF_REPO', '/repo')
+        try:
+            p = subprocess.run(['/venv/bin/python', os.path.join(here, 'bounded', 'df_enum.py'), pid, tier, str(seed), repo],
+                               capture_output=True, text=True, timeout=3000)
+            d = json.loads(p.stdout)
+        except Exception as e:
+            return {'coverage': {'bounded': {'error': repr(e)}}, 'violations': [], 'errors': ['bounded dataframe enumeration failed: %r' % (e,)]}
+        viol = []
+        for f in d['failures']:
+            viol.append({'name': 'bounded/%s' % f.get('op', '?'), 'input': f,
+                         'detail': 'real accumulator vs pandas on the concatenated prefix disagree'})
+        return {'coverage': {'bounded': {'label': 'BOUNDED (not proof)', 'space': d['space'], 'cases': d['cases'],
+                                         'distinct_cases': d['distinct'], 'operations': d['ops'], 'failures': len(d['failures']),
+                                         'samples': d['samples']}},
+                'violations': viol, 'errors': []}
+    return run
+
+
+for _pid in ('C06', 'C07', 'C11'):
+    EXTRA_CHECKS[_pid] = [_bounded_df(_pid)]
